@@ -115,6 +115,13 @@ def _module_constant(repo: Repo, f: FuncInfo, name: str) -> ast.expr | None:
         om = repo.modules.get(m2)
         if om is not None and attr in om.constants:
             return om.constants[attr]
+    if name.isupper() or (name.startswith("_") and name[1:].isupper()):
+        # a condition inlined from a helper of another module mentions that module's constants: a constant name that has
+        # one value in the whole repository denotes that value
+        found = [m.constants[name] for m in repo.modules.values() if name in m.constants]
+        vals = {_const_str(c) for c in found}
+        if found and len(vals) == 1 and None not in vals:
+            return found[0]
     return None
 
 
@@ -1072,10 +1079,56 @@ class Origins:
                         out += self.elements(f, src.right, d, seen, pos)
                     else:
                         out += self.elements(f, src, d, seen, pos)
+                elif kind == "value" and len(p) == 1:
+                    # `patterns, others = helper(filters)`: the collection is one component of the tuple the helper returns
+                    comps = self.tuple_component(f, src, p[0], d)
+                    if comps is None:
+                        return stop
+                    for g, x in comps:
+                        out += self.elements(g, x, d, seen, pos)
                 else:
                     return stop
             return out + self._mutations(f, c, d, seen, pos)
         return stop
+
+    def tuple_component(self, f: FuncInfo, e: ast.expr, idx: int, depth: int = 0) -> list[tuple[FuncInfo, ast.expr]] | None:
+        """The expressions that form position `idx` of the tuple value `e` (literal, local, conditional, result of a repo helper)."""
+        if depth > self.MAX:
+            return None
+        if isinstance(e, (ast.Tuple, ast.List)):
+            if any(isinstance(x, ast.Starred) for x in e.elts) or idx >= len(e.elts):
+                return None
+            return [(f, e.elts[idx])]
+        if isinstance(e, ast.IfExp):
+            a, b = self.tuple_component(f, e.body, idx, depth + 1), self.tuple_component(f, e.orelse, idx, depth + 1)
+            return None if a is None or b is None else a + b
+        if isinstance(e, ast.Name) and not isinstance(f.node, ast.Lambda) and e.id not in f.param_names:
+            binds = self._bindings(f, e.id, e if parent(e) is not None else None)
+            out: list[tuple[FuncInfo, ast.expr]] = []
+            for kind, src, p in binds:
+                if kind != "value" or p:
+                    return None
+                sub = self.tuple_component(f, src, idx, depth + 1)
+                if sub is None:
+                    return None
+                out += sub
+            return out or None
+        if isinstance(e, ast.Call):
+            cs = self._callees(f, e)
+            if not cs:
+                return None
+            out = []
+            for g in cs:
+                rets = self._returns(g)
+                if not rets:
+                    return None
+                for r in rets:
+                    sub = self.tuple_component(g, r, idx, depth + 1)
+                    if sub is None:
+                        return None
+                    out += sub
+            return out
+        return None
 
     def _mutations(self, f: FuncInfo, c: ast.expr, d: int, seen: frozenset, pos: tuple, field: str | None = None) -> list[Leaf]:
         """Elements added to the collection `c` (a local name, or the field self.<field> anywhere in the class) by mutator calls."""
@@ -1389,7 +1442,7 @@ def _expand(repo: Repo, f: FuncInfo, e: ast.expr, depth: int = 0) -> ast.expr:
 
 def _is_dotted_form(e: ast.expr, others: set[str]) -> bool:
     """`o + "."` / f"{o}." for an o in `others`."""
-    if isinstance(e, ast.JoinedStr) and len(e.values) == 2 and isinstance(e.values[0], ast.FormattedValue) and _const_str(e.values[1]) == ".":
+    if isinstance(e, ast.JoinedStr) and len(e.values) == 2 and isinstance(e.values[0], ast.FormattedValue) and (_const_str(e.values[1]) == "." or (isinstance(e.values[1], ast.FormattedValue) and _const_str(e.values[1].value) == ".")):
         v = e.values[0].value
         if isinstance(v, ast.Call) and _call_name(v) == "str" and len(v.args) == 1:
             v = v.args[0]
@@ -1452,8 +1505,8 @@ def _relation_atoms(repo: Repo, f: FuncInfo, formula, hay: str, others: set[str]
                 st = dot_status(repo, f, nd) if isinstance(nd, ast.Name) else "bare"
                 # the other string itself is the prefix: only safe if that string carries the separator (then len() includes it)
                 (safe if st == "dot" else raw).append(mk(a))
-            elif _is_dotted_form(_expand(repo, f, nd), others):
-                safe.append(mk(a))
+            elif _is_dotted_form(_expand(repo, f, nd), others) or _is_dotted_form(_expand_names(repo, f, nd), others):
+                safe.append(mk(a))  # (the second form has named separator constants folded: f"{o}{SEPARATOR}")
         elif isinstance(inner, ast.Call) and not (isinstance(inner.func, ast.Attribute) and inner.func.attr in STR_REL_METHODS):
             try:
                 if _relation_call(repo, f, inner, hay, others, _depth) or _relation_call(repo, f, _expand_names(repo, f, inner), hay, others, _depth):
@@ -1936,6 +1989,69 @@ def _found_guard(repo: Repo, f: FuncInfo, node: ast.AST, hay: str, index_texts: 
         return False
 
 
+def _boundary_index_var(repo: Repo, f: FuncInfo, var: str, hay: str, at: ast.AST, nonneg: bool = False) -> str | None:
+    """Every binding of `var` is the position of a separator in `hay` (`hay.find(".", ..)` / `hay.rfind(".", ..)`), the length of
+    `hay` (the whole name) or a not-found sentinel (-1 / 0): 'safe' if `at` is only reached with a found position,
+    'unsafe' if -1 can arrive there, None if the variable is something else."""
+    if isinstance(f.node, ast.Lambda) or var in f.param_names:
+        return None
+    binds = origins(repo)._bindings(f, var)
+    vals = [src for kind, src, p_ in binds if kind == "value" and not p_]
+
+    def sentinel(v: ast.expr) -> bool:
+        try:
+            return ast.literal_eval(v) in (-1, 0) and not isinstance(ast.literal_eval(v), bool)
+        except Exception:  # noqa: BLE001
+            return False
+
+    def whole(v: ast.expr) -> bool:
+        return isinstance(v, ast.Call) and _call_name(v) == "len" and len(v.args) == 1 and norm(v.args[0]) == hay
+
+    finds = [v for v in vals if isinstance(v, ast.Call) and isinstance(v.func, ast.Attribute) and v.func.attr in ("find", "rfind") and norm(v.func.value) == hay and v.args and _const_str(v.args[0]) == "."]
+    if not (binds and len(vals) == len(binds) and finds and all(v in finds or sentinel(v) or whole(v) for v in vals)):
+        return None
+    if nonneg or _found_guard(repo, f, at, hay, {var}):
+        return "safe"
+    return "unsafe"
+
+
+def _index_from_helper(repo: Repo, f: FuncInfo, call: ast.Call, hay: str, boundary_funcs: set[str] | None = None) -> str | None:
+    """`call` invokes a repo helper with the name `hay` as argument; every (non-None) result of the helper is a boundary index of
+    that name - a separator position / the whole length walked with find / rfind - or the length of a string that is the name
+    or one of its ancestors by a boundary-safe test: 'safe'; the length of a raw string prefix: 'unsafe'; else None."""
+    cs = origins(repo)._callees(f, call)
+    if len(cs) != 1 or isinstance(cs[0].node, ast.Lambda):
+        return None
+    g = cs[0]
+    pos_ = _positional(g)
+    hp = next((pos_[i] for i, a in enumerate(call.args) if i < len(pos_) and norm(a) == hay), None) or next((k.arg for k in call.keywords if norm(k.value) == hay), None)
+    if hp is None or any(isinstance(x, (ast.Yield, ast.YieldFrom)) for x in own_nodes(g.node)):
+        return None
+    rets = [r for r in own_nodes(g.node) if isinstance(r, ast.Return) and r.value is not None and not (isinstance(r.value, ast.Constant) and r.value.value is None)]
+    if not rets:
+        return None
+    verdicts = []
+    for r in rets:
+        v = r.value
+        core, off = _strip_offset(v)
+        if isinstance(v, ast.Constant) and v.value == 0:
+            verdicts.append("safe")
+        elif isinstance(core, ast.Name) and off == 0:
+            verdicts.append(_boundary_index_var(repo, g, core.id, hp, r) or "unknown")
+        elif isinstance(core, ast.Call) and _call_name(core) == "len" and len(core.args) == 1 and off == 0:
+            if norm(core.args[0]) == hp:
+                verdicts.append("safe")
+            else:
+                verdicts.append(_slice_by_len_at(repo, g, r, ast.Name(id=hp, ctx=ast.Load()), core.args[0], boundary_funcs or set(), 1)[0])
+        else:
+            verdicts.append("unknown")
+    if all(x == "safe" for x in verdicts):
+        return "safe"
+    if any(x == "unsafe" for x in verdicts):
+        return "unsafe"
+    return None
+
+
 def _index_cut(repo: Repo, f: FuncInfo, node: ast.Subscript, bound: ast.expr, is_upper: bool) -> tuple[str, str]:
     """Verdict for `name[:bound]` / `name[bound:]` where bound is neither a constant nor a len(): the cut must be at a separator."""
     hay = norm(node.value)
@@ -1950,23 +2066,21 @@ def _index_cut(repo: Repo, f: FuncInfo, node: ast.Subscript, bound: ast.expr, is
         d = local_defs(repo, f).get(core.id)
         if d is None and not isinstance(f.node, ast.Lambda) and core.id not in f.param_names:
             # assigned several times, every time the position of a separator in the same string: `i = s.find("."); while i != -1: ..; i = s.find(".", i + 1)`
-            binds = origins(repo)._bindings(f, core.id)
-            vals = [src for kind, src, p_ in binds if kind == "value" and not p_]
-
-            def sentinel(v: ast.expr) -> bool:
-                try:
-                    return ast.literal_eval(v) in (-1, 0) and not isinstance(ast.literal_eval(v), bool)
-                except Exception:  # noqa: BLE001
-                    return False
-
-            finds = [v for v in vals if isinstance(v, ast.Call) and isinstance(v.func, ast.Attribute) and v.func.attr in ("find", "rfind") and norm(v.func.value) == hay and v.args and _const_str(v.args[0]) == "."]
-            if binds and len(vals) == len(binds) and finds and all(v in finds or sentinel(v) for v in vals):
-                if off == 0 and (nonneg or _found_guard(repo, f, node, hay, {core.id})):
-                    return "safe", "cut at a separator found by find/rfind, reached only when one was found"
-                if off == 1:
-                    return "safe", "cut one past the separator found by find/rfind"
-                if off == 0:
+            if off == 1 and _boundary_index_var(repo, f, core.id, hay, node, nonneg=True) is not None:
+                return "safe", "cut one past the separator found by find/rfind"
+            if off == 0:
+                v_ = _boundary_index_var(repo, f, core.id, hay, node, nonneg)
+                if v_ == "safe":
+                    return "safe", "cut at a separator found by find/rfind (or at the end of the name), reached only when one was found"
+                if v_ == "unsafe":
                     return "unsafe", f"`{norm(node, 60)}`: find('.') is -1 for a name without (further) separator, the slice then cuts off the last character"
+        if isinstance(d, ast.Call) and off == 0 and not (isinstance(d.func, ast.Attribute) and d.func.attr in SEARCH_METHODS):
+            # the index is computed by a helper: `n = self._length_of_closest_aliased(name, aliased)` ... `name[:n]`
+            v_ = _index_from_helper(repo, f, d, hay)
+            if v_ == "safe":
+                return "safe", "cut at an index returned by a helper: a separator position of this name (or its whole length / the length of one of its ancestors)"
+            if v_ == "unsafe":
+                return "unsafe", f"`{norm(node, 60)}`: the index returned by the helper is the length of a raw string prefix of the name (or a position that may be -1)"
         if d is not None:
             texts.add(core.id)
             c2, o2 = _strip_offset(d)
